@@ -420,7 +420,7 @@ def ValidUtf8 (s : Str) : Prop := sanitize s = s
 
 /-- The typed effect of `Encode` then `Decode` on a message built by FromFrame or by a client:
     strings are sanitised; a request whose id is empty loses its id member (`omitempty`) and is then taken for a
-    notification; a response whose id is empty, or that has neither result nor error (PONG), is rejected. -/
+    notification; a response whose id is empty is rejected (so was, before the fix, the PONG response: it had neither result nor error). -/
 def reDecode : Msg → Except Err Msg
   | .connectReq id p => if id = [] then .error .unknownnotif else
       .ok (.connectReq (sanitize id) { p with clientKey := sanitize p.clientKey, deviceID := sanitize p.deviceID, uid := sanitize p.uid, token := sanitize p.token })
@@ -436,7 +436,7 @@ def reDecode : Msg → Except Err Msg
   | .connectResp id r => if id = [] then .error .undetermined else
       .ok (.connectResp (sanitize id) { r with serverKey := sanitize r.serverKey, salt := sanitize r.salt })
   | .sendResp id r => if id = [] then .error .undetermined else .ok (.sendResp (sanitize id) { r with messageID := sanitize r.messageID })
-  | .pongResp _ => .error .undetermined
+  | .pongResp id => if id = [] then .error .undetermined else .ok (.pongResp (sanitize id))   -- result `{}` since the fix
   | .recvNotif p =>
       .ok (.recvNotif { p with msgKey := sanitize p.msgKey, messageID := sanitize p.messageID, clientMsgNo := sanitize p.clientMsgNo,
                                streamNo := sanitize p.streamNo, streamID := sanitize p.streamID, channelID := sanitize p.channelID,
